@@ -17,7 +17,11 @@ IsEvent(e) == l <= Len(Tr) /\ Tr[l].e = e /\ l' = l + 1
 B(r) == [magic |-> r.magic, seq |-> r.seq, time |-> r.time, node |-> r.node, ival |-> r.ival, ok |-> r.ok]
 
 \* exit status: a run that got through reports success, every refusal / abort reports failure (fail: e2fsck bit 8, others # 0)
-ExitOK(r) == r.kind = "peek" \/ (r.res = "ok") = ~Ln.fail
+\* e2fsck ignores the result of its final ext2fs_close_free (known finding FsckIgnoresCloseError): when ext2fs_mmp_stop fails
+\* there, the exit status is the one of a successful run; an abort found by an update ends in fatal_error (exit 8)
+ExitOK(r) == \/ r.kind = "peek"
+             \/ r.kind = "fsck" /\ r.res \in {"CHANGE_ABORT", "MAGIC", "CSUM"}
+             \/ (r.res = "ok") = ~Ln.fail
 PostOK(n) == LET p == Pend(nd'[n], Ln.now) IN
              /\ blk' = B(Ln.blk)
              /\ now' = Ln.now
@@ -31,7 +35,7 @@ TInit == /\ IsEvent("I")
          /\ hist' = [by |-> 0, how |-> "init", own |-> TRUE, seq |-> blk'.seq, valid |-> blk'.magic /\ blk'.ok]
          /\ used' = {} /\ crashes' = 0 /\ forced' = FALSE /\ corrupted' = FALSE
          \* mke2fs -O mmp / tune2fs -O mmp: ext2fs_mmp_init -> ext2fs_mmp_reset
-         /\ blk'.magic /\ blk'.ok /\ blk'.seq = CLEAN /\ blk'.ival = Max2(Ln.sbi, MinIval)
+         /\ blk'.magic /\ blk'.ok /\ blk'.seq = CLEAN /\ blk'.ival = Max2(Ln.mkival, MinIval)   \* mkival: the interval when the block was made
 TLaunch == /\ IsEvent("L") /\ Launch(Ln.n, Ln.kind, Ln.polls, Ln.imm = 1) /\ PostOK(Ln.n)
 TRead == /\ IsEvent("R")
          /\ B(Ln.rd) = blk                    \* the process read what is on the device
